@@ -21,7 +21,9 @@ pub struct MarkerFiller {
     pub for_pos: usize,
 }
 
-pub const MARKER_ATOM_KINDS: usize = 4;
+pub const MARKER_ATOM_KINDS: usize = 5;
+/// Header forms of a `for`: declaration, assignment, declaration of two names with initialisers.
+pub const FOR_FORMS: usize = 3;
 
 impl MarkerFiller {
     pub fn new(is_function: bool, atom_choice: Vec<usize>) -> MarkerFiller {
@@ -49,6 +51,16 @@ impl Filler for MarkerFiller {
             }
             2 => Atom::new("x--", vec![Ev::Assign("x = x - 1".to_string())])
                 .with_idents(vec![("x", Role::Write)]),
+            4 => {
+                // One declaration statement, two names, both initialised (the second from the
+                // first): four statements whose order matters.
+                let (a, b) = (format!("a{k}"), format!("b{k}"));
+                Atom::new(
+                    &format!("var {a} = x, {b} = {a} + 1"),
+                    vec![Ev::Decl(format!("var {a}")), Ev::Assign(format!("{a} = x")), Ev::Decl(format!("var {b}")), Ev::Assign(format!("{b} = {a} + 1"))],
+                )
+                .with_idents(vec![(&a, Role::Decl), ("x", Role::Read), (&b, Role::Decl), (&a, Role::Read)])
+            }
             _ => {
                 if self.is_function {
                     Atom::ret("x").with_idents(vec![("x", Role::Read)])
@@ -81,6 +93,17 @@ impl Filler for MarkerFiller {
             return (init, cond, step);
         }
         let v = format!("i{k}");
+        if form == 2 {
+            let w = format!("j{k}");
+            let init = Atom::new(
+                &format!("var {v} = 0, {w} = {v} + 1"),
+                vec![Ev::Decl(format!("var {v}")), Ev::Assign(format!("{v} = 0")), Ev::Decl(format!("var {w}")), Ev::Assign(format!("{w} = {v} + 1"))],
+            )
+            .with_idents(vec![(&v, Role::Decl), (&w, Role::Decl), (&v, Role::Read)]);
+            let cond = Cond::new(&format!("{v} < n")).with_reads(&[&v, "n"]);
+            let step = Atom::new(&format!("{v}++"), vec![Ev::Assign(format!("{v} = {v} + 1"))]).with_idents(vec![(&v, Role::Write)]);
+            return (init, cond, step);
+        }
         let init = Atom::decl_var_init(&v, "0").with_idents(vec![(&v, Role::Decl)]);
         let cond = Cond::new(&format!("{v} < n")).with_reads(&[&v, "n"]);
         let step = Atom::new(&format!("{v}++"), vec![Ev::Assign(format!("{v} = {v} + 1"))])
